@@ -279,8 +279,22 @@ func runProperty(l *loaded, prop, tier string, timeout int, work string, verbose
 		}
 	}
 	var obls []*Obligation
-	for _, k := range keys {
+	// the functions tagged with the property, then - transitively - every in-package function whose contract one of them
+	// relied on (a modular call or a `uses` law): its clauses were assumed there, so all its obligations count here too
+	done := map[string]bool{}
+	inherited := map[string]bool{}
+	queue := append([]string{}, keys...)
+	for len(queue) > 0 {
+		k := queue[0]
+		queue = queue[1:]
+		if done[k] {
+			continue
+		}
+		done[k] = true
 		c := l.contracts.Funcs[k]
+		if c == nil {
+			continue
+		}
 		if c.Trusted {
 			run.Trusted["assumed contract (body not verified): "+k+" — "+c.Why] = true
 			continue
@@ -302,8 +316,22 @@ func runProperty(l *loaded, prop, tier string, timeout int, work string, verbose
 			run.Extra = append(run.Extra, o)
 		}
 		for _, o := range r.Obls {
+			if inherited[k] && !hasProp(o.Props, prop) {
+				o.Props = append(append([]string{}, o.Props...), prop)
+				o.Inherited = true
+			}
 			if hasProp(o.Props, prop) {
 				obls = append(obls, o)
+			}
+		}
+		if os.Getenv("GOVC_NOCLOSURE") == "" {
+			for _, u := range r.Used {
+				if !done[u] {
+					if !contractMentions(l.contracts.Funcs[u], prop) || inherited[k] {
+						inherited[u] = true
+					}
+					queue = append(queue, u)
+				}
 			}
 		}
 	}
@@ -343,7 +371,7 @@ func (p *PropRun) report() int {
 		var hit *Finding
 		for i := range ff.Findings {
 			f := &ff.Findings[i]
-			if f.appliesTo(p.Prop) && f.Obligation == baseOblName(o.Name) {
+			if (f.appliesTo(p.Prop) || o.Inherited) && f.Obligation == baseOblName(o.Name) {
 				hit = f
 			}
 		}
@@ -354,7 +382,7 @@ func (p *PropRun) report() int {
 			reported[hit.Obligation] = true
 			note := ""
 			if hit.Witness != "" {
-				failed, built, out := runOverlayTest(p.Repo, filepath.Join("/verif/findings", hit.Witness), hit.Run, 120*time.Second)
+				failed, built, out := witnessStatus(p.Repo, filepath.Join("/verif/findings", hit.Witness), hit.Run)
 				switch {
 				case !built:
 					note = " [witness could not be built: " + firstLine(out) + "]"
